@@ -50,6 +50,16 @@ def judge(cur, s, cname, node, result, change, error, before_snap, everything):
         out.append(("result-shares-nodes-with-source", f"{len(shared)} node objects are in both trees"))
     if SG.variables(rs) != SG.variables(s):
         out.append(("variable-set-changed", f"{sorted(SG.variables(s))} -> {sorted(SG.variables(rs))}"))
+    # the library's own view of the result (its printer) must agree with the links: no operand may live on in a
+    # second reference that the rewrite forgot to update
+    if not ar:
+        try:
+            p1 = str(rroot)
+            p2 = str(SG.build(rs))
+            if p1 != p2:
+                out.append(("printer-disagrees-with-links", f"result prints {p1!r}, a tree rebuilt from its links prints {p2!r}"))
+        except Exception:  # noqa - printing problems are C04's business
+            pass
     # context: everything hanging off the path root -> footprint keeps structure, side and order
     if cname == "BM":
         foot = ""  # the balanced move rewrites at the root (both sides of '=')
@@ -87,6 +97,29 @@ class V(steps.Visitor):
         self.snap = audit.snapshot(self.everything)
 
     def on_transition(self, acc, ctx, root, s, cname, rule, index, node, result, change, error):
+        if ctx.get("inplace"):
+            # live-tree mode: there is no separate source tree; the rewritten tree itself must be sound
+            if error is not None or result is None:
+                return
+            res = []
+            try:
+                rroot = RW.get_root(result)
+                probs = audit.link_audit(rroot)
+                if probs:
+                    res.append(("links-inconsistent", "; ".join(probs[:3])))
+                else:
+                    rs = SG.sig(rroot)
+                    ar = SG.arity_problems(rs)
+                    if ar:
+                        res.append(("arity", "; ".join(ar[:3])))
+                    elif SG.variables(rs) != SG.variables(s):
+                        res.append(("variable-set-changed", f"{sorted(SG.variables(s))} -> {sorted(SG.variables(rs))}"))
+            except SG.Cyclic as e:
+                res.append(("links-inconsistent", f"cycle: {e}"))
+            for kind, detail in res:
+                acc.violation(f"{cname}|{kind}|{ctx.get('nb')}|in-place", {"text": ctx["text"], "trace": ctx["trace"], "cfg": cname, "index": index,
+                                                                          "inplace": True}, f"{detail}  [live state {SG.show(s)}]")
+            return
         res = judge(root, s, cname, node, result, change, error, self.snap, self.everything)
         for kind, detail in res:
             core = f"{cname}|{kind}|{RW.neighbourhood(node)}"
@@ -108,6 +141,7 @@ def run(tier, seed):
     acc = steps.run(V, texts, depth, "any", seed, h1 + h2)
     if tier == "quick":
         acc.merge(steps.run(V, steps.small_texts("expr") + steps.small_texts("eqn"), 2, "any", seed, 0, key="small"))
+    acc.merge(steps.run(V, steps.small_texts("expr") + steps.small_texts("eqn"), "inplace", "any", seed, 0, key="small"))
     # trees assembled from a piece and its clone: identical subtrees share node ids
     dup = [f"{a} = {b} + {a}" for a in ("2x", "3x^2", "x + 1", "2 * y") for b in ("y", "3", "2x")]
     dup += [f"{a} + {b} + {a}" for a in ("2x", "x^2", "4 * y", "2 + x") for b in ("y", "3")]
@@ -130,8 +164,8 @@ def run(tier, seed):
 
 
 def _replay_direct(case):
-    if case.get("dup_ids"):
-        return []  # reproduced by re-exploring the seed with unified ids
+    if case.get("dup_ids") or case.get("inplace"):
+        return []  # reproduced by re-exploring the seed (unified ids / live-tree mode)
     roots = RW.run_trace(case["text"], case["trace"])
     cur = roots[-1]
     everything = audit.all_nodes(cur)
